@@ -102,6 +102,9 @@ char *strndup(const char *s, size_t max)
 {
 	size_t n = 0, i;
 	char *r;
+#ifdef CFGV_DUP_FAIL_GHOST
+	if (cfgv_dup_fail) return NULL;
+#endif
 	while (n < max && s[n]) n++;
 #ifdef CFGV_FIXED_DUP
 	r = malloc(CFGV_FIXED_DUP);
